@@ -11,6 +11,7 @@ import (
 
 func init() {
 	vhRegister("VH_C08_Transport", func(p []int) { VH_C08_Transport(p[0], p[1]) })
+	vhRegister("VH_C08_TransportBig", func(p []int) { VH_C08_TransportBig(p[0]) })
 	vhRegister("VH_C08_Scribble", func(p []int) { VH_C08_Scribble(p[0], p[1]) })
 	vhRegister("VH_C08_Row", func(p []int) { VH_C08_Row(p[0]) })
 	vhRegister("VH_C13_Marks", func(p []int) { VH_C13_Marks(p[0]) })
@@ -70,6 +71,48 @@ func VH_C08_Transport(n1, n2 int) {
 	}
 	vhAssert(!vhSameBacking(b1, conn.buf) && !vhSameBacking(b2, conn.buf), "events do not alias the receive buffer")
 	vhCover("transport")
+}
+
+// VH_C08_TransportBig: one packet of n bytes (sizes around the driver's buffer limits),
+// then a second small one through the same receive buffer; only the ends of the big
+// packet are symbolic.
+func VH_C08_TransportBig(n int) {
+	conn := &vBigConn{buf: make([]byte, n), n: n}
+	s := &slaveConnection{dc: conn}
+	ev1, err := s.readBinlogEvent()
+	vhAssert(err == nil && ev1 != nil, "first event read")
+	b1 := ev1.Bytes()
+	vhAssert(len(b1) == n-1, "event holds the packet payload")
+	h0, h1, t0, t1 := b1[0], b1[1], b1[n-3], b1[n-2]
+	_, err2 := s.readBinlogEvent()
+	vhAssert(err2 == nil, "second event read")
+	c := ev1.Bytes()
+	vhAssert(c[0] == h0 && c[1] == h1 && c[n-3] == t0 && c[n-2] == t1, "an event does not change when the transport reuses its receive buffer")
+	vhAssert(!vhSameBacking(c, conn.buf), "events do not alias the receive buffer")
+	vhCover("transport-big")
+}
+
+type vBigConn struct {
+	buf []byte
+	n   int
+	k   int
+}
+
+func (c *vBigConn) Close() error                                    { return nil }
+func (c *vBigConn) Exec(string) error                               { return nil }
+func (c *vBigConn) NoticeDump(uint32, uint32, string, uint16) error { return nil }
+func (c *vBigConn) HandleErrorPacket([]byte) error                  { return errHandler }
+func (c *vBigConn) ReadPacket() ([]byte, error) {
+	c.k++
+	if c.k == 1 {
+		c.buf[0] = 0
+		c.buf[1], c.buf[2], c.buf[c.n-2], c.buf[c.n-1] = vhU8(), vhU8(), vhU8(), vhU8()
+		return c.buf[:c.n], nil
+	}
+	// the next packet overwrites the start and the end of the receive buffer
+	c.buf[0] = 0
+	c.buf[1], c.buf[2], c.buf[c.n-2], c.buf[c.n-1] = vhU8(), vhU8(), vhU8(), vhU8()
+	return c.buf[:c.n], nil
 }
 
 type vCellShape struct {
